@@ -33,8 +33,12 @@ class World:
         self.spec = spec
         self.w.mgr[1].create_le_credit_based_server(spec, handler=self.accepted.append)
         self.w.mgr[1].create_classic_server(l2cap.ClassicChannelSpec(psm=PSM_CLASSIC), handler=self.accepted.append)
+        self.accepted_a = []        # channels accepted on side A (opens issued by B)
+        self.w.mgr[0].create_le_credit_based_server(spec, handler=self.accepted_a.append)
+        self.w.mgr[0].create_classic_server(l2cap.ClassicChannelSpec(psm=PSM_CLASSIC), handler=self.accepted_a.append)
         self.open = []              # (kind, handle, a_channel, b_channel)
         self.alive = {1, 2}
+        self.half_open_on_b = False
 
     def await_(self, coro):
         t = self.loop.create_task(coro)
@@ -79,6 +83,31 @@ class World:
                 return False
             self.open.remove(c)
             return True
+        if kind == 10:              # no operation (shorter programs in the quick tier)
+            return True
+        if kind in (7, 8):          # opened by B towards A
+            if h not in self.alive:
+                return True
+            n0 = len(self.accepted_a)
+            connb = w.conns[1][h]
+            if kind == 7:
+                t, ok = self.await_(w.mgr[1].create_le_credit_based_channel(connb, self.spec))
+            else:
+                t, ok = self.await_(w.mgr[1].create_classic_channel(connb, l2cap.ClassicChannelSpec(psm=PSM_CLASSIC)))
+            if not ok or not t.done() or t.exception() is not None or len(self.accepted_a) != n0 + 1:
+                return False
+            self.open.append(('classic' if kind == 8 else 'le', h, self.accepted_a[-1], t.result()))
+            return True
+        if kind == 9:               # an open that the caller cancels while the request is in flight
+            if h not in self.alive:
+                return True
+            t = self.loop.create_task(w.mgr[0].create_classic_channel(conn, l2cap.ClassicChannelSpec(psm=PSM_CLASSIC)))
+            self.loop.run_ready()
+            t.cancel()
+            if not w.pump(self.loop) or not t.done():
+                return False
+            self.half_open_on_b = True
+            return True
         # link loss
         if h in self.alive:
             waiters = []
@@ -95,7 +124,8 @@ class World:
                 mine = [c for c in self.open if c[1] == h]
                 chans = [c[2 + side] for c in mine]
                 want_cids = sorted(ch.source_cid for ch in chans)
-                have = sorted(m.channels.get(h, {}))
+                have = sorted(cid for cid, ch in m.channels.get(h, {}).items()
+                              if not (side == 1 and self.half_open_on_b and isinstance(ch, l2cap.ClassicChannel) and ch.state != ch.State.OPEN))
                 if have != want_cids or len(set(want_cids)) != len(want_cids):
                     return False
                 want_le = sorted(ch.destination_cid for (k, _, *_), ch in zip(mine, chans) if k == 'le')
@@ -117,14 +147,14 @@ def _canary_stale_le_table():
     l2cap.ChannelManager.on_channel_closed = on_channel_closed
 
 
-@harness(pre=['1 <= h2 <= 2 and 0 <= k3 <= 6 and 1 <= h3 <= 2 and 0 <= x3 <= 1 and 0 <= k4 <= 6 and 1 <= h4 <= 2 and 0 <= x4 <= 1',
+@harness(pre=['1 <= h2 <= 2 and 0 <= k3 <= 9 and 1 <= h3 <= 2 and 0 <= x3 <= 1 and 0 <= k4 <= 10 and 1 <= h4 <= 2 and 0 <= x4 <= 1',
               ],
          family='tables', twin=True, kernels=K, timeout=(90, 400), canaries=[('le-table-not-cleaned', _canary_stale_le_table)],
-         grids=[(('quick',), {'k1': [0, 1, 2], 'h1': [1], 'k2': [0, 1, 2, 3, 4, 5, 6]}), (('thorough',), {'k1': [0, 1, 2, 3, 4, 5, 6], 'h1': [1, 2], 'k2': [0, 1, 2, 3, 4, 5, 6]})],
-         bounds='program of 4 operations from {open LE CoC, open enhanced CoC, open classic, close by A, close by B, refused open, link loss} on 2 connections (first two operations per condition): after every operation both sides\' tables hold exactly the open channels, keyed consistently, CIDs unique per connection, every awaited open/close completed; finally a fresh open succeeds on every live link')
+         grids=[(('quick',), {'k1': [0, 1, 2], 'h1': [1], 'k2': [0, 1, 2, 3, 4, 5, 6, 7, 8, 9], 'k4': [10]}), (('quick',), {'k1': [7, 8, 9], 'h1': [1], 'k2': [0, 2, 7, 8], 'k4': [10]}), (('thorough',), {'k1': [0, 1, 2, 3, 4, 5, 6, 7, 8, 9], 'h1': [1, 2], 'k2': [0, 1, 2, 3, 4, 5, 6, 7, 8, 9]})],
+         bounds='program of 3 (quick) / 4 (thorough) operations from {open LE CoC, open enhanced CoC, open classic, close by A, close by B, refused open, link loss, LE CoC opened by B, classic opened by B, classic open cancelled by the caller in flight} on 2 connections (first two operations per condition): after every operation both sides\' tables hold exactly the open channels, keyed consistently, CIDs unique per connection, every awaited open/close completed; finally a fresh open succeeds on every live link')
 def program(k2: int, h2: int, k3: int, h3: int, x3: int, k4: int, h4: int, x4: int, k1: int, h1: int) -> bool:
-    h2, k3, h3, x3 = C(h2, 1, 2), C(k3, 0, 6), C(h3, 1, 2), C(x3, 0, 1)
-    k4, h4, x4 = C(k4, 0, 6), C(h4, 1, 2), C(x4, 0, 1)
+    h2, k3, h3, x3 = C(h2, 1, 2), C(k3, 0, 9), C(h3, 1, 2), C(x3, 0, 1)
+    k4, h4, x4 = C(k4, 0, 10), C(h4, 1, 2), C(x4, 0, 1)
     with untraced():
         return _program_concrete(k1, h1, k2, h2, k3, h3, x3, k4, h4, x4)
 
